@@ -86,7 +86,7 @@ PROPS['C01'] = Prop(
 )
 
 PROPS['C02'] = Prop(
-    functions=['_parser:_parse_check', '_parser:ParseState.result'],
+    functions=['_parser:_parse_check', '_parser:ParseState.result', 'policy:Rules.load'],
     lemmas=[('contracts.parser_table', 'reducer_table')],
     bounded=[('bounded.lang', 'c02')],
     level='other',
@@ -214,7 +214,7 @@ PROPS['C09'] = Prop(
 
 PROPS['C10'] = Prop(
     functions=['policy:Enforcer.set_rules', '_cache_handler:read_cached_file', '_cache_handler:delete_cached_file',
-               'policy:Enforcer._is_directory_updated', 'policy:Enforcer._record_file_rules', 'policy:Enforcer._load_policy_file'],
+               'policy:Enforcer._is_directory_updated', 'policy:Enforcer._record_file_rules', 'policy:Enforcer._load_policy_file', 'policy:Rules.load'],
     bounded=[('bounded.loader', 'c10')],
     level='other',
     technique='contract-based deductive verification (own VC generator + z3) of the file cache, the directory change detector and set_rules; their composition in load_rules is decided by a labelled bounded stand-in (exhaustive short and random long file-operation histories on real files with a controlled clock)',
